@@ -14,15 +14,18 @@ LEVEL = "model_checking"
 INV = ["Limit", "ExactlyOnce", "Balanced", "ModNonNeg"]
 
 
-def consts(prios, threshold, expiry):
+def consts(prios, threshold, expiry, qcap=10):
     p = list(prios) + ["med"] * 6
-    c = {"NTasks": len(prios), "Threshold": threshold, "AllowTimeout": expiry}
+    c = {"NTasks": len(prios), "Threshold": threshold, "AllowTimeout": expiry, "QCap": qcap}
     for i in range(6):
         c["P%d" % (i + 1)] = '"%s"' % p[i]
     return c
 
 
 def model_check(ctx, quick):
+    # a one-slot clearance queue makes requests block (bounded channel of GOMAXPROCS*100 entries in the code)
+    ctx.tlc("MicroTasks", cfg_text=vlib.cfg_text(constants=consts(("med", "med", "med", "low"), 2, False, qcap=1), invariants=INV,
+                                                 properties=["AllDone"]), timeout=3000)
     runs = [(("low", "med", "med", "med"), 2, False), (("high", "med", "low", "med"), 2, True)]
     if not quick:
         runs += [(("high", "med", "med", "low", "med"), 2, True), (("med", "med", "med", "low", "low", "high"), 3, False)]
@@ -55,6 +58,14 @@ def gen_scripts(ctx, quick):
                               "out": rnd.choice(["ok", "ok", "err", "panic"]), "done": rnd.choice([1, 2, 3])})
             pol = ["sched" if a == 0 else "t%d" % a for a in g["policy"]]
             scripts.append({"tasks": tasks, "threshold": g["threshold"], "expiry": g["expiry"], "policy": pol})
+    # burst scripts: more waiting microtasks than the clearance queue holds (the driver runs them with
+    # GOMAXPROCS=2, i.e. a queue of 200 entries); the limit must still be respected, nothing may be lost
+    for k in range(2 if quick else 8):
+        nb = rnd.choice([260, 330])
+        prio = rnd.choice(["med", "low"])
+        tasks = [{"id": "t%d" % (i + 1), "prio": prio, "variant": rnd.choice(["run", "start"]), "out": "ok", "done": 1}
+                 for i in range(nb)]
+        scripts.append({"tasks": tasks, "threshold": rnd.choice([2, 3]), "expiry": False, "policy": [], "burst": True, "holdMs": 2})
     return scripts
 
 
@@ -81,7 +92,13 @@ def sig_of(hist, ej):
 
 def execute(ctx, scripts):
     binp = ctx.go_build("micro")
-    res = vlib.drive(ctx, binp, scripts, chunk=1, timeout=120)
+    normal = [i for i, s in enumerate(scripts) if not s.get("burst")]
+    burst = [i for i, s in enumerate(scripts) if s.get("burst")]
+    res = [None] * len(scripts)
+    for i, r in zip(normal, vlib.drive(ctx, binp, [scripts[i] for i in normal], chunk=1, timeout=120)):
+        res[i] = r
+    for i, r in zip(burst, vlib.drive(ctx, binp, [scripts[i] for i in burst], chunk=1, timeout=240, env={"GOMAXPROCS": "2"})):
+        res[i] = r
     hists, owner = [], []
     for i, r in enumerate(res):
         evs = r["events"]
